@@ -753,3 +753,394 @@ Proof.
   - eexists _, _. split; [reflexivity|]. split; [lia|]. split; [lia|].
     intros NG. destruct (EN NG) as [E1 _]. lia.
 Qed.
+
+(* ============================================================================================== *)
+(* 10. the tail-drop rule (Port.put, repaired) and the occupancy bound                              *)
+
+(* the property's refusal condition, on what is ACTUALLY held *)
+Definition tail_refuses (qlimit : option Z) (lb : bool) (s : port) (p : pkt) : Prop :=
+  match qlimit with
+  | None => False
+  | Some q => if lb then (sum_sizes (port_held s) + psize p > q)%Z
+              else (Z.of_nat (length (items (pq s))) >= q - 1)%Z
+  end.
+
+Lemma no_drop_in_stamp c s p : ~ In (ODrop p) (stamp_outs c s).
+Proof. unfold stamp_outs. destruct (c_stamp c); cbn; intuition discriminate. Qed.
+
+Lemma tail_policy_inv qlimit lb s p u r a :
+  tail_policy true qlimit lb s p u = Some (r, a) ->
+  u = None /\ a = pavg s /\ r = match qlimit with None => false | Some q => over_limit lb q s p end.
+Proof.
+  unfold tail_policy. destruct u; [discriminate|]. destruct qlimit; intros H; injection H as <- <-; auto.
+Qed.
+
+Theorem port_drop_iff rate qlimit lb eid t0 acts s tr p u s' outs :
+  let c := port_cfg all_fixed rate qlimit lb eid in
+  port_run c (port0 t0) acts = Some (s, tr) ->
+  port_act c s (PPut p u) = Some (s', outs) ->
+  (In (ODrop p) outs <-> tail_refuses qlimit lb s p)
+  /\ (In (ODrop p) outs -> pq s' = pq s /\ pbytes s' = pbytes s /\ pdrop s' = (pdrop s + 1)%Z)
+  /\ (~ In (ODrop p) outs ->
+        pq s' = sq_put fifo_push (pnow s) p (pq s) /\ pbytes s' = (pbytes s + psize p)%Z /\ pdrop s' = pdrop s).
+Proof.
+  intros c H A.
+  pose proof (port_bytes_exact c t0 acts s tr eq_refl H) as B.
+  apply port_act_step in A.
+  inversion A as [p0 u0 a Hpol|p0 u0 a Hpol| | | | | | |]; subst.
+  - (* accepted *)
+    cbn [c_policy c port_cfg all_fixed fx_qlimit] in Hpol. apply tail_policy_inv in Hpol as (_ & _ & R).
+    assert (ND : ~ In (ODrop p) (stamp_outs c s)) by apply no_drop_in_stamp.
+    split; [|split].
+    + split; [intros D; contradiction|]. intros T. exfalso. unfold tail_refuses in T.
+      destruct qlimit as [q|]; [|exact T]. symmetry in R. unfold over_limit in R. rewrite <- B in T.
+      destruct lb; [apply Z.ltb_ge in R|apply Z.leb_gt in R]; lia.
+    + intros D; contradiction.
+    + intros _. cbn. auto.
+  - (* refused *)
+    cbn [c_policy c port_cfg all_fixed fx_qlimit] in Hpol. apply tail_policy_inv in Hpol as (_ & _ & R).
+    assert (D : In (ODrop p) (stamp_outs c s ++ [ODrop p])) by (apply in_or_app; right; left; reflexivity).
+    split; [|split].
+    + split; [|intros _; exact D]. intros _. unfold tail_refuses.
+      destruct qlimit as [q|]; [|discriminate]. symmetry in R. unfold over_limit in R. rewrite <- B.
+      destruct lb; [apply Z.ltb_lt in R|apply Z.leb_le in R]; lia.
+    + intros _. cbn. auto.
+    + intros ND; contradiction.
+Qed.
+
+(* a port without limit never refuses *)
+Corollary port_unlimited_never_drops rate lb eid t0 acts s tr p u s' outs :
+  let c := port_cfg all_fixed rate None lb eid in
+  port_run c (port0 t0) acts = Some (s, tr) -> port_act c s (PPut p u) = Some (s', outs) -> ~ In (ODrop p) outs.
+Proof.
+  intros c H A D. destruct (port_drop_iff rate None lb eid t0 acts s tr p u s' outs H A) as ((T & _) & _).
+  exact (T D).
+Qed.
+
+Lemma held_le_items s : phase_inv s -> (length (port_held s) <= S (length (items (pq s))))%nat.
+Proof.
+  intros [N U I B]. unfold port_held. rewrite app_length, map_length.
+  destruct (psvc s) as [[p dl]|] eqn:V.
+  - assert (G : get (pq s) = GNone) by (apply B; discriminate). unfold sq_held. rewrite G. cbn. lia.
+  - unfold sq_held. destruct (get (pq s)); cbn; lia.
+Qed.
+
+Lemma items_get_le (q q' : sq pkt) : sq_get fifo_pop q = Some q' -> (length (items q') <= length (items q))%nat.
+Proof.
+  intros H. apply fifo_get_inv in H as (_ & _ & [(E & E' & _)|(x & E & _)]); rewrite E; [rewrite E'|]; cbn; lia.
+Qed.
+Lemma items_cb_le (q q' : sq pkt) : sq_cb fifo_pop q = Some q' -> (length (items q') <= length (items q))%nat.
+Proof.
+  intros H. apply fifo_cb_inv in H as (_ & [(_ & x & E & _)|(_ & E & _)]); rewrite E; cbn; lia.
+Qed.
+Lemma items_take_eq (q q' : sq pkt) x : sq_take q = Some (x, q') -> items q' = items q.
+Proof. intros H. apply sq_take_inv in H as (_ & E & _). exact E. Qed.
+
+(* the occupancy invariant of the tail-drop port *)
+Definition occ_inv (qlimit : option Z) (lb : bool) (s : port) : Prop :=
+  match qlimit with
+  | None => True
+  | Some q =>
+      if lb then (pbytes s <= Z.max q 0)%Z
+      else (Z.of_nat (length (items (pq s))) <= Z.max (q - 1) 0)%Z /\ ((q <= 1)%Z -> port_held s = [])
+  end.
+
+Lemma occ_step rate qlimit lb eid s a s' outs :
+  let c := port_cfg all_fixed rate qlimit lb eid in
+  nonneg_held s -> occ_inv qlimit lb s -> pstep c s a s' outs -> occ_inv qlimit lb s'.
+Proof.
+  intros c NH O H. unfold occ_inv in *. destruct qlimit as [q|]; [|exact I].
+  pose proof (books_step c s a s' outs H) as (EH & _). cbn zeta in EH.
+  destruct H as [p u a Hpol|p u a Hpol|q0 Hst Hget|q0 Hcb|a0 p q0 Hsvc Hst Htake Hrate|a0 p q0 q' Hsvc Hst Htake Hrate Hget
+                |p dl q' Hsvc Hdl Hget|t Hurg Hlt Hdl|incl].
+  - (* accepted *)
+    cbn [c_policy c port_cfg all_fixed fx_qlimit] in Hpol. apply tail_policy_inv in Hpol as (_ & _ & R).
+    symmetry in R. unfold over_limit in R. destruct lb.
+    + apply Z.ltb_ge in R. cbn. lia.
+    + apply Z.leb_gt in R. destruct O as [O1 O2]. cbn [pq put_accept sq_put items]. unfold fifo_push.
+      rewrite app_length. cbn [length]. split; [lia|]. intros Q1. lia.
+  - (* refused *)
+    destruct lb; [exact O|]. destruct O as [O1 O2]. split; [exact O1|]. intros Q1. specialize (O2 Q1).
+    unfold ev_accepted, ev_departures in EH. rewrite stamp_drop, stamp_drop_no_forward in EH. cbn [map app] in EH.
+    rewrite app_nil_r in EH. rewrite <- EH. exact O2.
+  - destruct lb; [exact O|]. destruct O as [O1 O2]. cbn [pq with_q]. pose proof (items_get_le _ _ Hget). split; [cbn in *; lia|].
+    intros Q1. specialize (O2 Q1). cbn [ev_accepted ev_departures flat_map out_forward map app snd] in EH. rewrite app_nil_r in EH. rewrite <- EH. exact O2.
+  - destruct lb; [exact O|]. destruct O as [O1 O2]. cbn [pq with_q]. pose proof (items_cb_le _ _ Hcb). split; [lia|].
+    intros Q1. specialize (O2 Q1). cbn [ev_accepted ev_departures flat_map out_forward map app snd] in EH. rewrite app_nil_r in EH. rewrite <- EH. exact O2.
+  - destruct lb; [exact O|]. destruct O as [O1 O2]. cbn [pq with_q with_svc]. rewrite (items_take_eq _ _ _ Htake). split; [exact O1|].
+    intros Q1. specialize (O2 Q1). cbn [ev_accepted ev_departures flat_map out_forward map app snd] in EH. rewrite app_nil_r in EH. rewrite <- EH. exact O2.
+  - (* forwarded at once *)
+    assert (S : (0 <= psize p)%Z).
+    { unfold nonneg_held, port_held in NH. rewrite Hsvc, (fifo_held_take _ _ _ _ Htake) in NH.
+      cbn [app map snd] in NH. exact (Forall_inv NH). }
+    destruct lb.
+    + unfold leave_now. cbn [c_fix_rate0 c port_cfg all_fixed fx_rate0]. cbn. lia.
+    + destruct O as [O1 O2]. cbn [pq with_q]. pose proof (items_get_le _ _ Hget) as L.
+      rewrite <- (items_take_eq _ _ _ Htake) in O1. split; [lia|].
+      intros Q1. specialize (O2 Q1). cbn [ev_accepted ev_departures flat_map out_forward map app snd] in EH. rewrite app_nil_r in EH. rewrite O2 in EH. discriminate.
+  - (* transmission ends *)
+    assert (S : (0 <= psize p)%Z).
+    { unfold nonneg_held, port_held in NH. rewrite Hsvc in NH. cbn [app] in NH. exact (Forall_inv NH). }
+    destruct lb.
+    + cbn. lia.
+    + destruct O as [O1 O2]. cbn [pq with_q with_bytes with_svc]. pose proof (items_get_le _ _ Hget) as L. split; [lia|].
+      intros Q1. specialize (O2 Q1). cbn [ev_accepted ev_departures flat_map out_forward map app snd] in EH. rewrite app_nil_r in EH. rewrite O2 in EH. discriminate.
+  - exact O.
+  - exact O.
+Qed.
+
+(* occupancy never exceeds the limit: bytes held <= qlimit in byte mode; packets held (waiting, travelling to
+   the server, in transmission) <= qlimit in packet mode (qlimit - 1 waiting + the reserved place) *)
+Theorem port_occupancy_le_limit rate q lb eid t0 acts s tr :
+  let c := port_cfg all_fixed rate (Some q) lb eid in
+  Forall put_nonneg acts -> port_run c (port0 t0) acts = Some (s, tr) ->
+  if lb then (sum_sizes (port_held s) <= Z.max q 0)%Z
+  else (Z.of_nat (length (items (pq s))) <= Z.max (q - 1) 0)%Z /\ (Z.of_nat (length (port_held s)) <= Z.max q 0)%Z.
+Proof.
+  intros c OK H.
+  assert (INV : safe_inv s /\ occ_inv (Some q) lb s).
+  { apply (run_inv c put_nonneg (fun x => safe_inv x /\ occ_inv (Some q) lb x)) with (acts := acts) (s := port0 t0) (tr := tr); auto.
+    - intros s0 a s1 outs Ha [[P N L] O] St. split.
+      + constructor; [eapply phase_step; eauto|eapply nonneg_step; eauto|eapply not_late_step; eauto].
+      + eapply occ_step; eauto.
+    - split.
+      + constructor; [apply phase_init|constructor|intros p dl E; discriminate].
+      + unfold occ_inv. destruct lb; cbn; [lia|]. split; [lia|reflexivity]. }
+  destruct INV as [[P N L] O]. unfold occ_inv in O. destruct lb.
+  - rewrite <- (port_bytes_exact c t0 acts s tr eq_refl H). exact O.
+  - destruct O as [O1 O2]. split; [exact O1|].
+    destruct (Z_le_gt_dec q 1) as [Q1|Q1].
+    + rewrite (O2 Q1). cbn. lia.
+    + pose proof (held_le_items s P). lia.
+Qed.
+
+(* ============================================================================================== *)
+(* 11. conservation as C08 states it                                                                *)
+
+Inductive subseq {A : Type} : list A -> list A -> Prop :=
+| sub_nil : subseq [] []
+| sub_take x l1 l2 : subseq l1 l2 -> subseq (x :: l1) (x :: l2)
+| sub_skip x l1 l2 : subseq l1 l2 -> subseq l1 (x :: l2).
+
+Lemma subseq_refl (A : Type) (l : list A) : subseq l l.
+Proof. induction l; constructor; auto. Qed.
+Lemma subseq_nil_l (A : Type) (l : list A) : subseq [] l.
+Proof. induction l; constructor; auto. Qed.
+Lemma subseq_app (A : Type) (l1 l2 m1 m2 : list A) : subseq l1 l2 -> subseq m1 m2 -> subseq (l1 ++ m1) (l2 ++ m2).
+Proof. intros H1 H2. induction H1; cbn; auto; constructor; auto. Qed.
+Lemma subseq_trans (A : Type) (l1 l2 l3 : list A) : subseq l1 l2 -> subseq l2 l3 -> subseq l1 l3.
+Proof.
+  intros H12 H23. revert l1 H12. induction H23 as [|x l2 l3 H IH|x l2 l3 H IH]; intros l1 H12.
+  - exact H12.
+  - inversion H12; subst; constructor; auto.
+  - constructor. auto.
+Qed.
+Lemma subseq_filter (A : Type) (f : A -> bool) (l1 l2 : list A) : subseq l1 l2 -> subseq (filter f l1) (filter f l2).
+Proof. intros H. induction H; cbn; [constructor| |]; destruct (f x); try constructor; auto. Qed.
+Lemma subseq_prefix (A : Type) (l r : list A) : subseq l (l ++ r).
+Proof. rewrite <- (app_nil_r l) at 1. apply subseq_app; [apply subseq_refl|apply subseq_nil_l]. Qed.
+
+Lemma accepted_subseq_puts tr : subseq (map snd (accepted tr)) (puts tr).
+Proof.
+  induction tr as [|[[t a] outs] tr IH]; [constructor|].
+  unfold accepted, puts. cbn [flat_map]. fold (accepted tr) (puts tr). rewrite map_app.
+  apply subseq_app; [|exact IH].
+  destruct a as [p u| | | | |t'|incl]; cbn.
+  1: destruct (has_drop outs); cbn; [apply sub_skip, sub_nil|apply sub_take, sub_nil].
+  all: constructor.
+Qed.
+
+(* put-in = forwarded + refused + held, as multisets of the very packets; refusals are the counted drops *)
+Theorem port_conserves c t0 acts s tr :
+  port_run c (port0 t0) acts = Some (s, tr) ->
+  Permutation (puts tr) (forwarded tr ++ dropped tr ++ port_held s)
+  /\ pdrop s = Z.of_nat (length (dropped tr))
+  /\ map snd (accepted tr) = forwarded tr ++ port_held s.
+Proof.
+  intros H. destruct (books_run c _ _ _ _ H) as (B1 & _ & B3 & B4). cbn in B1, B3.
+  split; [|split; [lia|exact B1]].
+  eapply Permutation_trans; [exact B4|]. rewrite B1, <- app_assoc.
+  apply Permutation_app_head. apply Permutation_app_comm.
+Qed.
+
+(* packets of one flow leave in the order in which they were put in *)
+Theorem port_flow_fifo c t0 acts s tr (f : pkt -> bool) :
+  port_run c (port0 t0) acts = Some (s, tr) ->
+  subseq (filter f (forwarded tr)) (filter f (puts tr))
+  /\ exists rest, filter f (map snd (accepted tr)) = filter f (forwarded tr) ++ rest.
+Proof.
+  intros H. pose proof (port_fifo_conservation c t0 acts s tr H) as E. split.
+  - apply subseq_filter. eapply subseq_trans; [|apply accepted_subseq_puts]. rewrite E. apply subseq_prefix.
+  - exists (filter f (port_held s)). rewrite E, filter_app. reflexivity.
+Qed.
+
+(* ============================================================================================== *)
+(* 12. the stamp theorem in terms of the configured element id                                      *)
+
+Definition stamped_as (eid : ekey) (e : pev) : Prop :=
+  match e with
+  | (t, PPut _ _, outs) => flat_map out_stamp outs = match eid with Some _ => [(eid, t)] | None => [] end
+  | (_, _, outs) => flat_map out_stamp outs = []
+  end.
+
+Theorem port_perhop_stamp_eid rate qlimit lb eid s0 acts s tr :
+  port_run (port_cfg all_fixed rate qlimit lb eid) s0 acts = Some (s, tr) -> Forall (stamped_as eid) tr.
+Proof.
+  intros H. eapply Forall_impl; [|eapply port_perhop_stamp; exact H].
+  intros [[t a] outs] E. unfold stamp_ok in E. unfold stamped_as.
+  cbn [c_stamp port_cfg all_fixed fx_stamp stamp_key] in E.
+  destruct a; try exact E. destruct eid; exact E.
+Qed.
+
+(* ============================================================================================== *)
+(* 13. non-vacuity: a concrete admissible execution (burst of four at a packet limit of 3, a fifth packet
+       arriving exactly at the first departure), and the refutations of the code as found             *)
+
+Definition exP (u : nat) (f sz : Z) (t : Q) : pkt := mkp u (Z.of_nat u + 1) f sz t.
+
+Definition ex_cfg : pcfg := port_cfg all_fixed 64 (Some 3%Z) false (Some 1%Z).
+Definition ex_acts : list paction :=
+  [PInit; PPut (exP 0 0 8 0) None; PPut (exP 1 1 8 0) None; PPut (exP 2 0 16 0) None; PPut (exP 3 1 8 0) None;
+   PStoreCb; PStoreCb; PGet; PAdvance 1; PPut (exP 4 0 8 1) None; PTimer; PStoreCb; PGet; PAdvance 2; PTimer; PGet;
+   PAdvance 3; PTimer].
+
+Definition summary (r : port * list pev) :=
+  (map (fun x => (fst x, uid (snd x))) (departures (snd r)), map uid (dropped (snd r)),
+   map (fun x => (fst x, uid (snd x))) (accepted (snd r)), (precv (fst r), pdrop (fst r), pbytes (fst r)), port_held (fst r)).
+
+Example port_example :
+  option_map summary (port_run ex_cfg (port0 0) ex_acts)
+  = Some ([(1, 0%nat); (2, 1%nat); (3, 4%nat)], [2%nat; 3%nat], [(0, 0%nat); (0, 1%nat); (1, 4%nat)], (5, 2, 0)%Z, []).
+Proof. vm_compute. reflexivity. Qed.
+
+Example port_example_recurrence :
+  dep_spec (txe ex_cfg) [(0, exP 0 0 8 0); (0, exP 1 1 8 0); (1, exP 4 0 8 1)]
+  = [(0 + txe ex_cfg (exP 0 0 8 0), exP 0 0 8 0);
+     (Qmax 0 (0 + txe ex_cfg (exP 0 0 8 0)) + txe ex_cfg (exP 1 1 8 0), exP 1 1 8 0);
+     (Qmax 1 (Qmax 0 (0 + txe ex_cfg (exP 0 0 8 0)) + txe ex_cfg (exP 1 1 8 0)) + txe ex_cfg (exP 4 0 8 1), exP 4 0 8 1)]
+  /\ map (fun x => Qred (fst x)) (dep_spec (txe ex_cfg) [(0, exP 0 0 8 0); (0, exP 1 1 8 0); (1, exP 4 0 8 1)]) = [1; 2; 3].
+Proof. split; [reflexivity|vm_compute; reflexivity]. Qed.
+
+(* rate 0: every packet leaves at its arrival instant and byte_size returns to 0 *)
+Example port_example_rate0 :
+  option_map summary
+    (port_run (port_cfg all_fixed 0 (Some 20%Z) true (Some 1%Z)) (port0 0)
+       [PInit; PPut (exP 0 0 8 0) None; PPut (exP 1 1 8 0) None; PPut (exP 2 0 16 0) None; PStoreCb; PStoreCb; PGet; PGet;
+        PAdvance 1; PPut (exP 4 0 8 1) None; PStoreCb; PGet])
+  = Some ([(0, 0%nat); (0, 1%nat); (1, 4%nat)], [2%nat], [(0, 0%nat); (0, 1%nat); (1, 4%nat)], (4, 1, 0)%Z, []).
+Proof. vm_compute. reflexivity. Qed.
+
+(* a monitored port: one packet in transmission (4 bytes), one waiting (4 bytes) *)
+Definition mon_acts : list paction :=
+  [PInit; PAdvance 1; PPut (exP 0 0 4 1) None; PPut (exP 1 0 4 1) None; PStoreCb; PStoreCb; PGet; PAdvance 2].
+
+Definition sample_of (c : pcfg) (incl : bool) (r : port * list pev) : list pout :=
+  match port_act c (fst r) (PSample incl) with Some (_, o) => o | None => [] end.
+
+Example monitor_example :
+  let c := port_cfg all_fixed 8 (Some 4%Z) false (Some 1%Z) in
+  option_map (fun r => (sample_of c true r, sample_of c false r)) (port_run c (port0 0) mon_acts)
+  = Some ([OSample 2 8], [OSample 1 4]).
+Proof. vm_compute. reflexivity. Qed.
+
+(* ---- the code as found (one repair withheld at a time) violates the statements ---- *)
+Definition without_qlimit_fix : fixes := {| fx_qlimit := false; fx_stamp := true; fx_rate0 := true; fx_mon := true |}.
+Definition without_stamp_fix : fixes := {| fx_qlimit := true; fx_stamp := false; fx_rate0 := true; fx_mon := true |}.
+Definition without_rate0_fix : fixes := {| fx_qlimit := true; fx_stamp := true; fx_rate0 := false; fx_mon := true |}.
+Definition without_mon_fix : fixes := {| fx_qlimit := true; fx_stamp := true; fx_rate0 := true; fx_mon := false |}.
+
+(* `if self.qlimit:` : a packet is accepted although qlimit - 1 = 1 packet is already waiting *)
+Lemma port_drop_rule_refuted_unfixed :
+  exists acts s tr p s' outs,
+    let c := port_cfg without_qlimit_fix 64 (Some 2%Z) false (Some 1%Z) in
+    port_run c (port0 0) acts = Some (s, tr) /\ port_act c s (PPut p None) = Some (s', outs) /\
+    ~ In (ODrop p) outs /\ tail_refuses (Some 2%Z) false s p.
+Proof.
+  exists [PInit; PPut (exP 0 0 8 0) None]. eexists. eexists. exists (exP 1 0 8 0). eexists. eexists.
+  cbn zeta. split; [lazy; reflexivity|]. split; [lazy; reflexivity|]. split.
+  - intros [H|[]]. discriminate.
+  - cbn. lia.
+Qed.
+
+(* ... and qlimit = None is not "never refused" but a TypeError: the call is not even admissible *)
+Lemma port_unlimited_raises_unfixed :
+  forall rate lb eid s p, port_act (port_cfg without_qlimit_fix rate None lb eid) s (PPut p None) = None.
+Proof. reflexivity. Qed.
+
+(* rate 0: byte_size is never decremented *)
+Lemma port_bytes_exact_refuted_unfixed :
+  exists acts s tr,
+    port_run (port_cfg without_rate0_fix 0 (Some 100%Z) true (Some 1%Z)) (port0 0) acts = Some (s, tr) /\
+    port_held s = [] /\ pbytes s = 10%Z.
+Proof.
+  exists [PInit; PPut (exP 0 0 10 0) None; PStoreCb; PGet]. eexists. eexists.
+  split; [lazy; reflexivity|]. split; reflexivity.
+Qed.
+
+(* `if not self.element_id:` : a port with an element id stamps nothing *)
+Lemma port_perhop_stamp_refuted_unfixed :
+  exists acts s tr,
+    port_run (port_cfg without_stamp_fix 64 None false (Some 1%Z)) (port0 0) acts = Some (s, tr) /\
+    ~ Forall (stamped_as (Some 1%Z)) tr.
+Proof.
+  exists [PPut (exP 0 0 8 0) None]. eexists. eexists. split; [lazy; reflexivity|].
+  intros H. inversion H as [|e l He Hl]; subst. cbn in He. discriminate.
+Qed.
+
+(* PortMonitor: the packet in transmission is counted twice when included, once when excluded *)
+Lemma monitor_samples_refuted_unfixed :
+  exists acts s tr,
+    let c := port_cfg without_mon_fix 8 (Some 4%Z) false (Some 1%Z) in
+    port_run c (port0 0) acts = Some (s, tr) /\ sum_sizes (port_held s) = 8%Z /\
+    port_act c s (PSample true) = Some (s, [OSample 2 12]) /\ port_act c s (PSample false) = Some (s, [OSample 1 8]).
+Proof.
+  exists mon_acts. eexists. eexists. cbn zeta. split; [lazy; reflexivity|]. split; [reflexivity|]. split; reflexivity.
+Qed.
+
+(* ============================================================================================== *)
+(* 14. rate 0 (no serialisation delay): every accepted packet leaves at its arrival instant         *)
+
+Fixpoint sorted_from (t : Q) (l : list (Q * pkt)) : Prop :=
+  match l with [] => True | (a, _) :: r => t <= a /\ sorted_from a r end.
+
+Lemma sorted_from_weaken t t' l : t' <= t -> sorted_from t l -> sorted_from t' l.
+Proof. destruct l as [|[a p] r]; cbn; [auto|]. intros L [H1 H2]. split; [lra|exact H2]. Qed.
+
+Lemma accepted_sorted c : forall acts s s' tr, port_run c s acts = Some (s', tr) -> sorted_from (pnow s) (accepted tr).
+Proof.
+  induction acts as [|a rest IH]; intros s s' tr H; cbn [port_run] in H.
+  - injection H as <- <-. exact I.
+  - destruct (port_act c s a) as [[s1 outs]|] eqn:A; [|discriminate].
+    destruct (port_run c s1 rest) as [[s2 tr']|] eqn:R; [|discriminate].
+    injection H as <- <-. pose proof (step_time_mono _ _ _ _ _ (port_act_step _ _ _ _ _ A)) as L.
+    specialize (IH _ _ _ R). unfold accepted. cbn [flat_map]. fold (accepted tr').
+    assert (W0 : sorted_from (pnow s) (accepted tr')) by (eapply sorted_from_weaken; eauto).
+    destruct a; cbn [ev_accepted app]; try exact W0.
+    destruct (has_drop outs); cbn [app]; [exact W0|]. split; [exact L|exact IH].
+Qed.
+
+Lemma dep_from_zero f : (forall p, f p == 0) ->
+  forall l F, sorted_from F l -> tl_eq (dep_from f F l) l.
+Proof.
+  intros Z0. induction l as [|[a p] r IH]; intros F S; cbn [dep_from].
+  - constructor.
+  - destruct S as [S1 S2].
+    assert (E : Qmax a F + f p == a) by (rewrite (Q.max_l a F S1), Z0; lra).
+    constructor; [split; [exact E|reflexivity]|].
+    eapply tl_eq_trans; [apply dep_from_proper; exact E|]. apply IH. exact S2.
+Qed.
+
+Theorem port_rate0_departs_at_arrival c t0 acts s tr :
+  c_rate c <= 0 -> port_run c (port0 t0) acts = Some (s, tr) ->
+  exists rest, tl_eq (accepted tr) (departures tr ++ rest) /\ map snd rest = port_held s.
+Proof.
+  intros R H. destruct (port_departure_recurrence c t0 acts s tr H) as (rest & E & EH).
+  exists rest. split; [|exact EH]. eapply tl_eq_trans; [|exact E]. apply tl_eq_sym.
+  assert (Z0 : forall p, txe c p == 0).
+  { intros p. unfold txe. destruct (Qlt_le_dec 0 (c_rate c)) as [L|L]; [lra|reflexivity]. }
+  pose proof (accepted_sorted c acts _ _ _ H) as S. cbn [pnow port0] in S.
+  destruct (accepted tr) as [|[a p] r]; cbn [dep_spec]; [constructor|]. destruct S as [S1 S2].
+  assert (E0 : a + txe c p == a) by (rewrite Z0; lra).
+  constructor; [split; [exact E0|reflexivity]|].
+  eapply tl_eq_trans; [apply dep_from_proper; exact E0|]. apply dep_from_zero; assumption.
+Qed.
